@@ -192,13 +192,37 @@ def _setitem_shape(fn: ast.FunctionDef) -> tuple[str, dict, dict]:
     hit = run(hit_body, True)
     miss = run(list(loop.orelse), False)
     # the variable holding the previous value: the one folded in the _remove_copyset calls of the maintenance part
+    # (a key local of the maintenance part — `old = (orig_val or '').casefold()` — is looked through: what counts is
+    # the variable assigned in the lookup prefix that the removal key is computed from)
+    rest_locals: dict[str, list[ast.expr]] = {}
+    for st in rest:
+        for n in ast.walk(st):
+            if isinstance(n, ast.AnnAssign) and n.value is not None and isinstance(n.target, ast.Name):
+                rest_locals.setdefault(n.target.id, []).append(n.value)
+            elif isinstance(n, ast.Assign):
+                for t in n.targets:
+                    if isinstance(t, ast.Name):
+                        rest_locals.setdefault(t.id, []).append(n.value)
+                    elif not isinstance(t, (ast.Subscript, ast.Attribute)):
+                        raise TranslateError(f'{where}: unrecognised assignment target in the maintenance part: {ast.unparse(t)}')
+            elif isinstance(n, ast.NamedExpr):
+                raise TranslateError(f'{where}: assignment expression in the maintenance part')
+
+    def roots(names: set[str], seen: frozenset = frozenset()) -> set[str]:
+        out: set[str] = set()
+        for nm in names:
+            if nm in rest_locals and nm not in seen:
+                for v in rest_locals[nm]:
+                    out |= roots({x.id for x in ast.walk(v) if isinstance(x, ast.Name)}, seen | {nm})
+            else:
+                out.add(nm)
+        return out
     orig_vars: set[str] = set()
     for st in rest:
         for n in ast.walk(st):
             if isinstance(n, ast.Call) and isinstance(n.func, ast.Name) and n.func.id == '_remove_copyset' and len(n.args) == 3:
                 names = {x.id for x in ast.walk(n.args[1]) if isinstance(x, ast.Name)}
-                orig_vars |= names
-            # a later read or store of _keys that involves classname/targetname maintenance is not expected
+                orig_vars |= roots(names)
     if len(orig_vars) != 1:
         raise TranslateError(f'{where}: cannot identify the previous-value variable (candidates {sorted(orig_vars)})')
     ov = orig_vars.pop()
@@ -227,7 +251,7 @@ def _setitem_shape(fn: ast.FunctionDef) -> tuple[str, dict, dict]:
     coq = (f'Definition gen_setitem_shape : setitem_shape :=\n  SetShape {b(lfold)} {b(rfold)} {shape["hit_read"]} '
            f'{shape["hit_store"]} {shape["miss_read"]} {shape["miss_store"]}.\n')
     ctx = dict(where=where, rest=rest, hit=hit, miss=miss, key_param=key_param, val_param=params[2], orig_var=ov,
-               prefix=prefix[:li])
+               prefix=prefix[:li], post=prefix[li + 1:])
     return coq, shape, ctx
 
 
@@ -577,6 +601,21 @@ class _MaintTr:
             return 'MKOrig'
         raise TranslateError(f'{w}: unrecognised index key {ast.unparse(e)}')
 
+    def bind_local(self, name: str, v: ast.expr, w: str) -> bool:
+        """`name = v` where v is a condition or an index key: remember it for inlining."""
+        if name in self.conds or name in self.keys:
+            raise TranslateError(f'{w}: local {name} is assigned twice')
+        for kind in ('cond', 'c', 't'):
+            try:
+                if kind == 'cond':
+                    self.conds[name] = self.cond(v, w)
+                else:
+                    self.keys[name] = (kind, self.key(v, kind == 't', w))
+            except TranslateError:
+                continue
+            return True
+        return False
+
     # -- statements
     @staticmethod
     def _irrelevant(st: ast.stmt) -> bool:
@@ -615,7 +654,12 @@ class _MaintTr:
             # the positive branch of `key_fold == '<a key that is not indexed>'` is about that key only
             m = c.startswith('(MCKeyIs ') and isinstance(st.test, ast.Compare) and not any(
                 isinstance(x, ast.Constant) and x.value in self.INDEXED for x in ast.walk(st.test))
-            return f'(MIf {c} {self.block(st.body, cont, other or m)} {self.block(st.orelse, cont, other)})'
+            saved = (dict(self.conds), dict(self.keys))
+            yes = self.block(st.body, cont, other or m)
+            self.conds, self.keys = dict(saved[0]), dict(saved[1])
+            no = self.block(st.orelse, cont, other)
+            self.conds, self.keys = saved
+            return f'(MIf {c} {yes} {no})'
         if isinstance(st, ast.Return):
             if st.value is not None and not (isinstance(st.value, ast.Constant) and st.value.value is None):
                 raise TranslateError(f'{w}: __setitem__ returns a value')
@@ -658,15 +702,10 @@ class _MaintTr:
                 act = f'(AStoreKey {_coq_str(v.value)})'
             elif isinstance(t, ast.Name) and t.id not in (self.ov, self.newvar, self.key_param):
                 # a boolean or key local: inline it
-                for kind in ('cond', 'c', 't'):
-                    try:
-                        if kind == 'cond':
-                            self.conds[t.id] = self.cond(v, w)
-                        else:
-                            self.keys[t.id] = (kind, self.key(v, kind == 't', w))
-                        return self.block(rest, k, other)
-                    except TranslateError:
-                        continue
+                # (statements after an `if` are translated before its branches, so a local may be bound only once on the
+                # way to a statement, and a binding made in one branch is not visible in the other or afterwards)
+                if self.bind_local(t.id, v, w):
+                    return self.block(rest, k, other)
         if act is not None:
             return _seq(f'(MAct {act})', self.block(rest, k, other))
         if other and self._irrelevant(st):
@@ -676,6 +715,14 @@ class _MaintTr:
 
 def _setitem_maint(ctx: dict) -> tuple[str, dict]:
     tr = _MaintTr(ctx)
+    # boolean / key locals bound between the lookup loop and the `if key_fold == 'classname'` chain (straight-line
+    # statements every path executes; the lookup walk has already accepted them) are visible to the chain
+    for st in ctx['post']:
+        if isinstance(st, ast.AnnAssign) and st.value is not None:
+            st = ast.Assign(targets=[st.target], value=st.value, lineno=st.lineno)
+        if isinstance(st, ast.Assign) and len(st.targets) == 1 and isinstance(st.targets[0], ast.Name) \
+                and st.targets[0].id not in (tr.ov, tr.newvar, tr.key_param):
+            tr.bind_local(st.targets[0].id, st.value, f'{tr.where}:{st.lineno}')
     prog = tr.block(list(ctx['rest']), 'MSkip', False)
     return f'Definition gen_setitem_maint : mprog :=\n  {prog}.\n', dict(prog=prog)
 
